@@ -376,6 +376,10 @@ pub fn expr_alts() -> Vec<EAlt> {
         v.push(atom(&format!("atom.{}_ne", nm), move |_| bin("NotEqual", "!=", 11, 11, 10, mk(), var("q"))));
     }
     v.push(atom("atom.eq_address_hex0", |_| bin("Equal", "==", 11, 11, 10, var("q"), call(ty("address"), vec![nodep("HexNumberLiteral", 0, vec![T("0x0")])]))));
+    // other ways of adding one (8.6: "No")
+    v.push(atom("atom.add_assign_one", |_| bin("AssignAdd", "+=", 14, 13, 14, var("q"), num("1"))));
+    v.push(atom("atom.sub_assign_one", |_| bin("AssignSubtract", "-=", 14, 13, 14, var("q"), num("1"))));
+    v.push(atom("atom.assign_plus_one", |_| bin("Assign", "=", 14, 13, 14, var("q"), bin("Add", "+", 5, 5, 4, var("q"), num("1")))));
     v.push(atom("atom.eq_plain", |_| bin("Equal", "==", 11, 11, 10, var("q"), var("r"))));
     v.push(atom("atom.eq_true", |_| bin("Equal", "==", 11, 11, 10, var("q"), nodep("BoolLiteral", 0, vec![T("true")]))));
     v.push(atom("atom.false_ne", |_| bin("NotEqual", "!=", 11, 11, 10, nodep("BoolLiteral", 0, vec![T("false")]), var("q"))));
